@@ -422,6 +422,16 @@ pub fn run(args: &Args) -> Report {
             cases.push(Case { try_unbounded: false, max_k: u32::MAX, label: format!("A:[{}] B:[{}]", op_str(&b), op_str(&a)), exec: Box::new(move |r| exec(&b2, &a2, false, r)) });
         }
     }
+    // unusual shapes of ONE write call, then the orderly end: end-of-stream comes after every byte the call reported as
+    // written (very many slices; more than a frame may carry, plain and vectored)
+    for a in [vec![Op::WV(vec![4; 1500]), Op::Shutdown], vec![Op::WV(vec![1; 5000]), Op::W(2), Op::Shutdown], vec![Op::WV(vec![300_000, 300_000, 300_000]), Op::Shutdown], vec![Op::W(700_000), Op::Shutdown]] {
+        for b in [vec![Op::ReadToEof(65_536)], vec![Op::ReadToEof(65_536), Op::W(2), Op::Shutdown]] {
+            let (a2, b2) = (a.clone(), b.clone());
+            cases.push(Case { try_unbounded: false, max_k: 1, label: format!("A:[{}] B:[{}]", op_str(&a), op_str(&b)), exec: Box::new(move |r| exec(&a2, &b2, false, r)) });
+            let (a2, b2) = (a.clone(), b.clone());
+            cases.push(Case { try_unbounded: false, max_k: 1, label: format!("A:[{}] B:[{}]", op_str(&b), op_str(&a)), exec: Box::new(move |r| exec(&b2, &a2, false, r)) });
+        }
+    }
     rep.bounds.insert("history_length_per_end".into(), serde_json::json!(len));
     rep.bounds.insert("histories_per_end".into(), serde_json::json!(hs.len()));
     rep.bounds.insert("alphabet".into(), serde_json::json!(op_str(&alphabet())));
